@@ -269,7 +269,8 @@ class Obligation:
             "function": self.function,
             "construct": self.construct,
             "verdict": "discharged" if self.ok else "VIOLATED",
-            "detail": self.detail,
+            "detail": self.detail if not self.ok else "",
+            "message_if_violated": self.detail if self.ok else "",
             "file": self.file,
             "line": self.line,
         }
